@@ -15,7 +15,7 @@ MANIFEST = {
                 "bytes of every variable match the byte-queue spec of Spec.lean; bytes newly exposed by a growing resize are unspecified), "
                 "attached_untouched (regions are unchanged), att_store_faults, buffer_correct (all of it at once).  The model follows "
                 "Buffer.hpp method by method and branch by branch (constructors, attach, operator=, assign, both prepend/append overloads "
-                "incl. a.prepend(a)/a.append(a)/a=a, resize, reserve, removeFront/Back, clear, swap, free).  The model is tied to the current "
+                "incl. a.prepend(a)/a.append(a)/a=a and a.prepend(pointer into a's own bytes), resize, reserve, removeFront/Back, clear, swap, free).  The model is tied to the current "
                 "Buffer.hpp on every run: identical op lines are executed by a harness built from the current sources (fresh memory "
                 "poisoned, attached ranges and data arguments handed out as exactly sized heap blocks so that ASan sees any access outside "
                 "them, attached blocks compared with their source after every op) and by the compiled model; size, bytes, ownership flag, the "
@@ -96,6 +96,9 @@ def reference(hist, impl_out):
             q[v] = unhex(t[2]) + q[v]
         elif op == "prependb":
             q[v] = list(q[w]) + q[v]
+        elif op == "prependsub":
+            off, n = int(t[2]), int(t[3])
+            q[v] = q[v][off:off + n] + q[v]
         elif op == "append":
             q[v] = q[v] + unhex(t[2])
         elif op == "appendb":
@@ -180,6 +183,10 @@ def gen_history(rng, length, attached_regions=True, big=False):
         elif k < 0.75:
             if ln[v] + ln[w] > 4000: continue
             op = f"prependb {v} {w}"; ln[v] += ln[w]
+        elif k < 0.765:
+            off = rng.randrange(ln[v] + 2)
+            m = min(n, 300)
+            op = f"prependsub {v} {off} {m}"; ln[v] += min(m, max(0, ln[v] - min(off, ln[v])))
         elif k < 0.78: op = f"swap {v} {w}"; ln[v], ln[w] = ln[w], ln[v]; last_removed[v], last_removed[w] = last_removed[w], last_removed[v]
         elif k < 0.81: op = f"clear {v}"; ln[v] = 0
         elif k < 0.84: op = f"free {v}"; ln[v] = 0
@@ -232,6 +239,7 @@ SMALL_OPS = [
     "append 0 515253", "resize 0 0", "resize 0 1", "resize 0 4", "resize 0 5", "removeFront 0 1", "removeFront 0 3",
     "removeBack 0 1", "removeBack 0 3", "reserve 0 4", "clear 0", "free 0", "swap 0 1", "assignb 0 1", "assignb 0 0",
     "appendb 0 1", "appendb 0 0", "prependb 0 1", "prependb 0 0", "copy 1 0", "new 0", "eq 0 1",
+    "prependsub 0 1 1", "prependsub 0 0 2",
 ]
 
 
@@ -254,7 +262,7 @@ def boundary_family(maxcap):
         for k in range(cap + 2):
             for r in range(k + 2):
                 pre = [f"newcap 0 {cap}", f"append 0 {hexs(pat[:k])}", f"removeFront 0 {r}"]
-                tails = ["appendb 0 0", "prependb 0 0", "assignb 0 0", "clear 0", "swap 0 1", "copy 1 0", "appendb 1 0", "prependb 1 0"]
+                tails = ["appendb 0 0", "prependb 0 0", "prependsub 0 1 1", "prependsub 0 0 1", "prependsub 0 1 9", "assignb 0 0", "clear 0", "swap 0 1", "copy 1 0", "appendb 1 0", "prependb 1 0"]
                 for n in range(cap + 3):
                     d = hexs([0x41 + i for i in range(n)])
                     tails += [f"resize 0 {n}", f"append 0 {d}", f"prepend 0 {d}", f"assign 0 {d}", f"removeBack 0 {n}",
@@ -347,6 +355,9 @@ def branch_stats(hist, impl_out, cnt):
         elif op == "assignb": assign(b, osz, "assignb.self" if v == w else "assignb")
         elif op == "prepend": prepend(b, dl, "prepend")
         elif op == "prependb": prepend(b, osz, "prependb.self" if v == w else "prependb", v == w)
+        elif op == "prependsub":
+            off = min(int(t[2]), size)
+            prepend(b, min(int(t[3]), size - off), "prependsub", True)
         elif op == "append": resize(b, size + dl, "append")
         elif op == "appendb": resize(b, size + osz, "appendb.self" if v == w else "appendb")
         elif op == "resize": resize(b, int(t[2]), "resize")
